@@ -10,7 +10,6 @@ use vh_comp::c06gen::{cases, Ctx, CONTEXTS};
 use vh_comp::campaign::*;
 use vh_comp::gen::*;
 use vh_comp::pool::Pool;
-use vh_comp::worker::{BuildSpec, Request};
 
 fn main() {
     let a = vhcore::parse_args();
@@ -29,69 +28,21 @@ fn run(a: &vhcore::Args) -> i32 {
     let all: Vec<Case> = if thorough {
         cases(&vh_comp::spaces::INT_WIDTHS, &CONTEXTS, false)
     } else {
-        let mut v = cases(&[8, 64, 256], &[Ctx::Const, Ctx::Configurable, Ctx::ConstFnDirect], false);
-        v.extend(cases(&[8, 256], &[Ctx::ConstFnLets, Ctx::ConstFnIf, Ctx::ConstFnTuple, Ctx::ConstFnNested], true));
+        let mut v = cases(&[8, 64, 256], &CONTEXTS, true);
+        v.extend(cases(&[64], &[Ctx::Const], false));
         v
     };
-    let pool = Pool::new(a.jobs, vhcore::work_dir("C06"));
-    // phase 1: build every batch once with diagnostics; cases whose compile-time item is rejected
-    // are attributed by span and set aside
-    let batch = 150usize;
-    let chunks: Vec<&[Case]> = all.chunks(batch).collect();
-    let dbg = BuildSpec { label: "debug".into(), release: false, run_tests: true, want_diagnostics: true, ..Default::default() };
-    let reqs: Vec<Request> = chunks
-        .iter()
-        .enumerate()
-        .map(|(i, cs)| Request { id: i as u64, name: format!("c06_p1_{i}"), src: render_package(cs), extra_files: vec![], with_std: true, existing_dir: None, builds: vec![dbg.clone()] })
-        .collect();
-    eprintln!("[C06] phase 1: {} packages, {} cases", reqs.len(), all.len());
-    let resps = pool.run(&reqs);
-    let mut rejected: Vec<(usize, String)> = vec![]; // (global case index, message)
-    let mut survivors: Vec<usize> = vec![];
-    let mut unattributed_batches = 0u64;
-    let mut panics: Vec<(usize, String, String)> = vec![];
-    for (bi, r) in resps.iter().enumerate() {
-        let first = bi * batch;
-        let cs = chunks[bi];
-        match r {
-            Ok(resp) if resp.builds[0].ok && resp.builds[0].run_error.is_empty() => survivors.extend(first..first + cs.len()),
-            Ok(resp) => {
-                let b = &resp.builds[0];
-                let (_, ranges) = render_package_with_ranges(cs);
-                let mut bad = std::collections::BTreeMap::new();
-                for d in &b.diagnostics {
-                    for (k, rs) in ranges.iter().enumerate() {
-                        if rs.iter().any(|(s, e)| d.start >= *s && d.start < *e) {
-                            bad.entry(k).or_insert_with(|| d.message.clone());
-                        }
-                    }
-                }
-                if bad.is_empty() {
-                    // panic or unattributable error: let the bisecting campaign sort it out
-                    unattributed_batches += 1;
-                    if let Some(p) = &b.panic {
-                        panics.push((first, p.clone(), b.panic_loc.clone()));
-                    }
-                    survivors.extend(first..first + cs.len());
-                } else {
-                    for k in 0..cs.len() {
-                        match bad.get(&k) {
-                            Some(m) => rejected.push((first + k, m.clone())),
-                            None => survivors.push(first + k),
-                        }
-                    }
-                }
-            }
-            Err(_) => {
-                unattributed_batches += 1;
-                survivors.extend(first..first + cs.len());
-            }
-        }
-    }
-    // phase 2: everything not rejected runs (debug + release) under the bisecting campaign
-    let surv_cases: Vec<Case> = survivors.iter().map(|i| all[*i].clone()).collect();
-    let specs = vec![spec("debug", false), spec("release", true)];
-    let res = run_campaign(&pool, "c06", &surv_cases, batch, &specs);
+    let mut pool = Pool::new(a.jobs, vhcore::work_dir("C06"));
+    // One case per package: a rejected compile-time item (very common: e.g. no u8 arithmetic can be
+    // evaluated in a const) must not take neighbours down with it, and the compiler reports only
+    // the first failing item of a package. Packages are tiny, so workers are recycled rarely.
+    pool.recycle_after = 600;
+    let mut rejected: Vec<(usize, String)> = vec![];
+    let unattributed_batches = 0u64;
+    let survivors: Vec<usize> = (0..all.len()).collect();
+    let surv_cases: Vec<Case> = all.clone();
+    let specs = vec![spec("debug", false)];
+    let res = run_campaign(&pool, "c06", &surv_cases, 1, &specs);
     let mut outcomes = vhcore::Distinct::default();
     let mut evals = 0u64;
     let mut ice = 0u64;
@@ -160,7 +111,6 @@ fn run(a: &vhcore::Args) -> i32 {
     for c in all.iter().step_by((all.len() / 5).max(1)) {
         rep.sample(json!({"case": c.desc, "expect": format!("{:?}", c.expect)}));
     }
-    let _ = panics;
     rep.assume("a compile-time context that REJECTS an expression is not a violation (the property constrains the values the compiler computes, and forbids substituting a value for a reverting expression); such rejections are counted in the evidence");
     rep.finish()
 }
